@@ -672,6 +672,13 @@ func (ex *Exec) callFunc(caller *frame, fn *ssa.Function, args []Value, env []Va
 	eng := ex.eng
 	name := fn.String()
 	if fn.Parent() == nil {
+		if ex.run != nil && ex.run.OpaqueFns[name] {
+			// a declared cut: the function's textual result is not modelled
+			if fn.Signature.Results().Len() == 1 && isString(fn.Signature.Results().At(0).Type()) {
+				return StrV{s: "\x00opaque:" + name}
+			}
+			panic(Unsupported{"opaque function with non-string result: " + name})
+		}
 		if in, ok := eng.intrinsics[name]; ok {
 			return in(ex, caller, fn, args)
 		}
